@@ -148,6 +148,19 @@ def gen_grid(rng, tier):
             lines.append("g.counts " + " ".join(map(str, cnts)))
             for kind in ["multicol", "multicoladd", "raw", "restart", "rawbin", "restartbin"]:
                 lines.append("g.rtgrad " + kind + (" nocount" if nocount else ""))
+        # restart block read by a grid of the same periodic variable that was set up over other boundaries: shape, data and the
+        # periodicity flag must be those of the grid written
+        rtx = []
+        for _ in range(2):
+            P, wv = rng.choice([(360.0, 10.0), (8.0, 0.5), (360.0, 7.5), (6.0, 0.25)])
+            nfull = int(round(P / wv))
+            full_w = rng.rand() < 0.5
+            nW = nfull if full_w else rng.randint(2, nfull - 1)
+            nR = rng.randint(2, nfull - 1) if (full_w or rng.rand() < 0.5) else nfull
+            loW = rng.randint(-nfull, nfull) * wv; loR = rng.randint(-nfull, nfull) * wv
+            kind = rng.choice(["restart", "restartbin"])
+            lines.append("g.rtx %s %s %s %s %s %s %s %s" % (kind, fbits(P), fbits(wv), fbits(wv), fbits(loW), fbits(loW + nW * wv), fbits(loR), fbits(loR + nR * wv)))
+            rtx.append({"line": len(lines), "P": P, "w": wv, "nW": nW, "nR": nR, "loW": loW, "full": nW == nfull})
         # init_from_boundaries
         l0 = rng.dyadic(-4, 4, 2); w0 = rng.choice([0.25, 0.5, 1.0, 0.1, 0.3, rng.uniform(0.1, 1.0)])
         hi = l0 + rng.randint(1, 12) * w0 + rng.choice([0.0, 0.0, 0.3 * w0, -0.2 * w0])
@@ -155,7 +168,7 @@ def gen_grid(rng, tier):
         npts = 1
         for v in nx:
             npts *= v
-        cases.append({"lines": lines, "meta": {"nd": nd, "nx": nx, "mult": mult, "per": per, "dyadic": dy}, "nontrivial": npts > 1})
+        cases.append({"lines": lines, "meta": {"nd": nd, "nx": nx, "mult": mult, "per": per, "dyadic": dy, "rtx": rtx}, "nontrivial": npts > 1})
     return cases
 
 
@@ -259,6 +272,26 @@ def oracle(case, out):
                 rper = vals(out, idx, "per")
                 if rper != gp:
                     viol.append("multicol round trip: periodicity flags %r became %r" % (gp, rper))
+        elif t[0] == "g.rtx":
+            r = next((x for x in case["meta"].get("rtx", []) if x["line"] == idx), None)
+            ok = vals(out, idx, "ok")
+            if r is None or ok is None:
+                viol.append("no result for the restart block read by a differently shaped grid"); continue
+            if ok[0] != 1:
+                viol.append("a restart block of a grid on a periodic variable could not be read by another grid of the same variable"); continue
+            rnx = vals(out, idx, "nx"); rlo = vals(out, idx, "lo"); rw = vals(out, idx, "w"); rper = vals(out, idx, "per"); pw = vals(out, idx, "perw")
+            rdata = vals(out, idx, "data") or []
+            what = "%s block of a grid over [%r, %r) of a variable with period %r read by a grid set up with %d bins" % (
+                t[1], r["loW"], r["loW"] + r["nW"] * r["w"], r["P"], r["nR"])
+            if rnx != [r["nW"]] or abs(rlo[0] - r["loW"]) > 1e-12 * max(1.0, abs(r["loW"])) or abs(rw[0] - r["w"]) > 1e-12:
+                viol.append("%s: sizes / boundary / width %r %r %r are not those written (%d, %r, %r)" % (what, rnx, rlo, rw, r["nW"], r["loW"], r["w"])); continue
+            if rdata != [float(i + 1) for i in range(r["nW"])]:
+                viol.append("%s: data changed" % what); continue
+            want = 1 if r["full"] else 0
+            if pw != [want]:
+                viol.append("%s: the grid written has periodicity flag %r although it spans %s" % (what, pw, "a whole period" if r["full"] else "part of a period")); continue
+            if rper != [want]:
+                viol.append("%s: the grid read back has periodicity flag %r, the grid written has %r" % (what, rper, pw))
         elif t[0] == "g.counts" and g:
             gcnt = [int(x) for x in t[1:]]
         elif t[0] == "g.rtgrad" and g:
